@@ -61,11 +61,29 @@ TRUSTED TABLES (each entry is part of the trusted base; everything else is deriv
        _parse_titan_params) are parameters of the generated function, instantiated in the tie theorems by the
        generated callee.
   Constants DEFAULT_PORT, MAX_REQUEST_SIZE: read from protocol/constants.py (must be imported from there).
-  Skipped statements: docstrings only."""
+  Skipped statements: docstrings and `pass` only.
+
+Refused besides what the rules above do not cover: parameters with defaults, decorators other than the expected
+ones, a translated function or class defined twice, module-level rebinding of urlparse / urlunparse / int / len /
+ValueError, locals that hide a constant, a callee, a record class or a builtin used by the tables, nested
+functions, lambdas, comprehensions, while / with / break / global / del, handlers that fall through."""
 import ast, sys, os, copy
 sys.path.insert(0, os.path.dirname(os.path.abspath(__file__)))
 from py2coq import Fn, Untranslatable, bad, coq_str, find_function, SRC
-from py2coq_server import int_consts
+
+def int_consts(relpath):
+    """NAME = <int literal> at module level of a source file (the last binding wins, as in Python)"""
+    out = {}
+    for n in ast.parse(open(os.path.join(SRC, relpath)).read()).body:
+        if isinstance(n, ast.Assign) and len(n.targets) == 1 and isinstance(n.targets[0], ast.Name):
+            name = n.targets[0].id
+            out.pop(name, None)
+            if isinstance(n.value, ast.Constant) and isinstance(n.value.value, int) and not isinstance(n.value.value, bool):
+                out[name] = n.value.value
+        elif not isinstance(n, (ast.Expr, ast.Import, ast.ImportFrom)):
+            for x in ast.walk(n):                      # any other statement that could bind a name makes it unknown
+                if isinstance(x, ast.Name) and isinstance(x.ctx, ast.Store): out.pop(x.id, None)
+    return out
 
 def K(e):
     return ast.dump(e)
@@ -857,7 +875,7 @@ Open Scope list_scope.
 """
 
 def main(out_path):
-    consts = {k: v for k, v in int_consts("protocol/constants.py").items() if isinstance(v, int)}
+    consts = int_consts("protocol/constants.py")
     mods = {}
     def module(rel):
         if rel not in mods: mods[rel] = Module(rel)
